@@ -43,6 +43,11 @@ func c03ctx() []gen.Ctx {
 		tmpl("inner-def", 1, `(begin ((fn [] (def x #))) $1)`),
 		tmpl("defn-inside", 1, `((fn [x] (begin (defn inner [y] $1) (inner #))) #)`),
 		tmpl("cond-scope", 1, `(cond (let [x #] false) 0 $1)`),
+		// a closure made in a block that is still empty; the block gets its binding afterwards
+		tmpl("closure-then-def-newscope", 1, `((fn [] (newScope (def g (fn [] $1)) (def x #) (g))))`),
+		tmpl("closure-then-def-let", 1, `((fn [] (let [] (def g (fn [] $1)) (def y #) (g))))`),
+		tmpl("closure-then-set-newscope", 1, `((fn [] (newScope (def g (fn [] $1)) (set x #) (g))))`),
+		tmpl("recursive-defn-in-block", 1, `((fn [] (newScope (defn down [n] (cond (== n 0) $1 (down (- n 1)))) (down 2))))`),
 	}
 }
 
@@ -64,8 +69,8 @@ func init() {
 	engine.Register(&engine.Check{
 		ID:    "C03",
 		Level: "exploration",
-		Rule: "scope skeletons over the name pool {x,y}: chains of 29 contexts (functions called immediately / returned / stored / passed, defn inside functions, let, letseq, newScope, for, tail loops, " +
-			"sibling closures sharing a variable, one creator called twice, caller-local decoys) to length 3 (thorough 4) over 6 leaves that read or write x and y; every binding site binds a distinct integer; " +
+		Rule: "scope skeletons over the name pool {x,y}: chains of 33 contexts (functions called immediately / returned / stored / passed, defn inside functions, let, letseq, newScope, for, tail loops, " +
+			"sibling closures sharing a variable, one creator called twice, caller-local decoys, closures made in a still-empty block that is bound afterwards) to length 3 (thorough 4) over 6 leaves that read or write x and y; every binding site binds a distinct integer; " +
 			"value compared with the reference evaluator; distinct_nontrivial = distinct (shape, value) pairs",
 		Assumptions: []string{"R1's textbook lexical scoping is the oracle; bindings are integers only (the re-def type rule is not exercised)"},
 		Run: func(c *engine.Ctx) {
